@@ -36,6 +36,8 @@ def plan(tier, seed):
         cases.append({"kind": "replace_stream", "seed": seed, "i": i})
     for i in range(6 if not big else 30):
         cases.append({"kind": "roundtrip", "seed": seed, "i": i})
+    for i in range(2 if not big else 8):
+        cases.append({"kind": "dup_names", "seed": seed, "i": i})
     return cases
 
 
@@ -175,6 +177,8 @@ def run(case):
         _replace_stream(case, out)
     elif kind == "roundtrip":
         _roundtrip(case, out)
+    elif kind == "dup_names":
+        _dup_names(case, out)
     return out.result(sample={"case": case} if case.get("i", 0) == 0 else None)
 
 
@@ -297,6 +301,39 @@ def _config_sep(out):
             out.v("reference-not-resolved", {"runtime_config": True}, ref=o.customer_order_ref)
     wb.close()
     out.d("config_sep:%d" % len(made))
+
+
+def _dup_names(case, out):
+    """Two strategies were added under one name (flumine only warns) next to a strategy with a name of its own: references of the
+    uniquely named strategy still come back to that strategy and to no other."""
+    from .. import live
+
+    rng = simgen.mk_rng(case["seed"], case["i"], 1919)
+    base = rng.choice(("scalper", "S", "Strategy", "x" * 40))
+    for order_ in (("%s", "%s_1", "%s"), ("%s_1", "%s", "%s"), ("%s", "%s", "%s_1"), ("%s", "%s_2", "%s", "%s")):
+        names = [n % base for n in order_]
+        b = [_strategy(n) for n in names]
+        wb = live.LiveWorld(b)
+        try:
+            ex = wb.exchange
+            uniq = [st for st in b if names.count(st.name) == 1]
+            made = []
+            for st in uniq:
+                twin = _strategy(st.name)  # the instance that placed the bets before the restart (same name, same reference prefix)
+                for j in range(3):
+                    o = _mk_order(twin, side=rng.choice(("BACK", "LAY")))
+                    bet = ex._new_bet("1.23456", o.create_place_instruction(), None)
+                    made.append((st, o, bet["betId"]))
+            wb.snapshot()
+            m = wb.market("1.23456")
+            for st, o, bet_id in made:
+                out.rule("roundtrip")
+                got = m.blotter._orders.get(o.id) if m is not None else None
+                if got is None or got.trade.strategy is not st:
+                    out.v("reference-attributed-to-wrong-order-or-strategy", {"duplicate_names_registered": True}, ref=o.customer_order_ref, strategy=st.name, got=None if got is None else got.trade.strategy.name, names=names)
+        finally:
+            wb.close()
+    out.d("dup_names:%d" % case["i"])
 
 
 def _roundtrip(case, out):
